@@ -3,7 +3,7 @@
    non-decreasing and within the lock history. If, in addition, every upload of the checkpoint
    object carried the then-CURRENT lock value ([uploads_current]: true whenever one instance is
    live at a time; false in the known finding C06), the published history is append-only. *)
-From SL Require Import Base.BytesProofs Ctlog.Model Ctlog.Spec Ctlog.Inv Ctlog.InvStep.
+From SL Require Import Base.BytesProofs Ctlog.Model Ctlog.Recompute Ctlog.Spec Ctlog.Inv Ctlog.InvStep.
 From Coq Require Import Sorting.Sorted.
 Open Scope N_scope.
 
@@ -180,6 +180,9 @@ Proof.
     eapply pext_trans; [apply set_i_pext|eassumption].
   - destruct (get_inst (w_insts w) i) as [x|]; [|apply pext_refl]. apply set_i_pext.
   - destruct o; apply pext_same; reflexivity.
+  - destruct (get_inst (w_insts w) i) as [x|]; [|apply pext_refl].
+    destruct (step_recompute_spec sha w i x key lim) as [E|(p & ls & c1 & why & _ & _ & _ & E)];
+      rewrite E; [apply pext_refl|apply set_i_pext].
 Qed.
 
 Theorem run_pext evs : forall w, pext w (run evs w).
